@@ -366,5 +366,142 @@ C06(T) ==
                     [st |-> [stored |-> {}, extent |-> 0, md |-> FALSE, eof |-> -1], v |-> {}], ds)
   IN r.v
 
-Violations(T) == C01(T) \cup C02(T) \cup C03(T) \cup C10(T) \cup C07(T) \cup C08(T) \cup C19(T) \cup C05(T) \cup C06(T)
+\* ===== C15: user indications are faithful, causally ordered and gated by configuration =====
+\* (demanded of executions in which every queued PDU is retrieved after each call: out = what that call emitted)
+IndCount(e, k) == Cardinality({ j \in DOMAIN e.ind : e.ind[j].k = k })
+OutCount(e, t) == Cardinality({ j \in DOMAIN e.out : e.out[j].t = t })
+RxSteps == {"RECEIVING_FILE_DATA", "RECV_FILE_DATA_WITH_CHECK_LIMIT_HANDLING", "WAITING_FOR_MISSING_DATA"}
+\* reserved CFDP messages "cfdp" <type> ...: originating transaction id = 0x0A, proxy put response = 0x07
+P15Reserved(m) == Len(m) >= 5 /\ SubSeq(m, 1, 4) = <<99, 102, 100, 112>>
+P15Val(b) == FoldLeft(LAMBDA acc, x : acc * 256 + x, 0, b)
+P15Orig(msgs) ==
+  LET res == { i \in DOMAIN msgs : P15Reserved(msgs[i]) }
+      origs == { i \in res : msgs[i][5] = 10 } IN
+  IF (\E i \in res : msgs[i][5] = 7) \/ origs = {} THEN [set |-> FALSE, src |-> 0, seq |-> 0]
+  ELSE LET m == msgs[LastIdx(origs)]  sl == ((m[6] \div 16) % 8) + 1  ql == (m[6] % 8) + 1 IN
+       [set |-> TRUE, src |-> P15Val(SubSeq(m, 7, 6 + sl)), seq |-> P15Val(SubSeq(m, 7 + sl, 6 + sl + ql))]
+C15Event(T, i) ==
+  LET e == T.ev[i]
+      S == e.side = "S"
+      icfg == IF S THEN T.cfg.indS ELSE T.cfg.indD
+      B(c) == {V("C15", c, i, Kf(T), "", "")} IN
+  \* gating
+  (IF S /\ ~icfg.eofSent /\ IndCount(e, "eof_sent") > 0 THEN B("disabled-eof-sent-indication-delivered") ELSE {})
+  \cup (IF ~S /\ ~icfg.eofRecv /\ IndCount(e, "eof_recv") > 0 THEN B("disabled-eof-recv-indication-delivered") ELSE {})
+  \cup (IF ~S /\ ~icfg.segRecv /\ IndCount(e, "seg_recv") > 0 THEN B("disabled-file-segment-recv-indication-delivered") ELSE {})
+  \cup (IF ~icfg.finished /\ IndCount(e, "finished") > 0 THEN B("disabled-transaction-finished-indication-delivered") ELSE {})
+  \* delivered for every corresponding event
+  \cup (IF S /\ icfg.eofSent /\ e.exc = "none" /\ IndCount(e, "eof_sent") # OutCount(e, "EOF") THEN B("eof-sent-indications-differ-from-eof-pdus-emitted") ELSE {})
+  \cup (IF ~S /\ icfg.eofRecv /\ e.call = "fsm" /\ e.arg.t = "EOF" /\ e.exc = "none"
+           /\ e.pre.step \in {"IDLE", "RECEIVING_FILE_DATA", "RECV_FILE_DATA_WITH_CHECK_LIMIT_HANDLING", "WAITING_FOR_METADATA"}
+           /\ IndCount(e, "eof_recv") # 1 THEN B("eof-recv-indication-missing-or-repeated") ELSE {})
+  \cup (IF ~S /\ icfg.segRecv /\ e.call = "fsm" /\ e.arg.t = "FD" /\ e.exc = "none" /\ e.pre.step \in RxSteps
+           /\ ~(IndCount(e, "seg_recv") = 1 /\ \E j \in DOMAIN e.ind : e.ind[j].k = "seg_recv" /\ e.ind[j].off = e.arg.off /\ e.ind[j].len = Len(e.arg.data))
+        THEN B("file-segment-recv-indication-missing-or-wrong") ELSE {})
+  \cup (IF ~S /\ IndCount(e, "seg_recv") > 0 /\ ~(e.call = "fsm" /\ e.arg.t = "FD" /\ \A j \in DOMAIN e.ind : e.ind[j].k = "seg_recv" =>
+                                                   (e.ind[j].off = e.arg.off /\ e.ind[j].len = Len(e.arg.data)))
+        THEN B("file-segment-recv-indication-without-such-a-pdu") ELSE {})
+  \cup (IF ~S /\ e.call = "fsm" /\ e.arg.t = "MD" /\ e.exc = "none" /\ e.pre.step \in {"IDLE", "WAITING_FOR_METADATA"}
+           /\ ~(IndCount(e, "metadata_recv") = 1 /\ \E j \in DOMAIN e.ind :
+                  /\ e.ind[j].k = "metadata_recv" /\ e.ind[j].srcName = e.arg.srcName /\ e.ind[j].dstName = e.arg.dstName
+                  /\ e.ind[j].size = (IF e.arg.srcName = "none" THEN -1 ELSE e.arg.size) /\ e.ind[j].src = e.arg.h.sv
+                  /\ e.ind[j].msgs = [k \in 1..Len(SelectSeq(e.arg.opts, LAMBDA o : o.t = 2)) |-> SelectSeq(e.arg.opts, LAMBDA o : o.t = 2)[k].v])
+        THEN B("metadata-recv-indication-missing-or-unfaithful") ELSE {})
+  \cup (IF S /\ e.exc = "none" /\ OutCount(e, "MD") > 0 /\ e.pre.step \in {"IDLE", "TRANSACTION_START"}
+           /\ ~(IndCount(e, "transaction") = 1 /\ \E j \in DOMAIN e.ind :
+                  /\ e.ind[j].k = "transaction" /\ e.ind[j].tid.set /\ e.ind[j].tid.seq = e.out[1].h.qv /\ e.ind[j].tid.src = e.out[1].h.sv
+                  /\ e.ind[j].orig = P15Orig(PutBefore(T, i).msgs))
+        THEN B("transaction-indication-missing-or-unfaithful") ELSE {})
+  \* Transaction-Finished = the Finished PDU emitted for the same completion
+  \cup (IF ~S /\ IndCount(e, "finished") > 0 /\ OutCount(e, "FIN") > 0
+           /\ LET f == SelectSeq(e.ind, LAMBDA x : x.k = "finished")  p == SelectSeq(e.out, LAMBDA x : x.t = "FIN") IN
+              ~(f[Len(f)].cond = p[Len(p)].cond /\ f[Len(f)].deliv = p[Len(p)].deliv /\ f[Len(f)].fstat = p[Len(p)].fstat)
+        THEN B("transaction-finished-indication-differs-from-finished-pdu") ELSE {})
+  \* every indication carries the transaction id of the PDUs
+  \cup (IF \E j \in DOMAIN e.ind : ~e.ind[j].tid.set \/ e.ind[j].tid.src # T.cfg.sId
+                                   \/ (e.ind[j].tid.seq # e.pre.tseq /\ e.ind[j].tid.seq # e.post.tseq
+                                       /\ ~(e.call = "fsm" /\ e.arg.t # "none" /\ e.ind[j].tid.seq = e.arg.h.qv))
+        THEN B("indication-with-wrong-or-missing-transaction-id") ELSE {})
+C15OrderS(T) ==
+  LET q == IndsOf(T, "S")
+      pos(k, seq) == { j \in DOMAIN q : q[j].k = k /\ q[j].tid.seq = seq }
+      seqs == { q[j].tid.seq : j \in DOMAIN q }
+      before(A, B) == \A a \in A, b \in B : a < b IN
+  UNION { IF ~(before(pos("transaction", n), pos("eof_sent", n) \cup pos("finished", n)) /\ before(pos("eof_sent", n), pos("finished", n)))
+          THEN {V("C15", "sender-indications-out-of-causal-order", 0, Kf(T), "", "")} ELSE {} : n \in seqs }
+\* receiver, per transaction (a transaction = the events between two idle states of the handler)
+SameTxn(T, j, i) == \A k \in j..(i - 1) : T.ev[k].side # "D" \/ T.ev[k].post.state = "BUSY"
+C15OrderD(T) ==
+  LET ds == OfSide(T, "D") IN
+  { V("C15", "file-segment-recv-before-metadata-recv", i, Kf(T), "", "") :
+      i \in { i \in ds : /\ IndCount(T.ev[i], "seg_recv") > 0
+                          /\ ~\E j \in ds : j <= i /\ IndCount(T.ev[j], "metadata_recv") > 0 /\ SameTxn(T, j, i) } }
+  \cup { V("C15", "indication-after-transaction-finished", i, Kf(T), "", "") :
+      i \in { i \in ds : /\ IndCount(T.ev[i], "seg_recv") + IndCount(T.ev[i], "eof_recv") + IndCount(T.ev[i], "metadata_recv") > 0
+                          /\ \E j \in ds : j < i /\ IndCount(T.ev[j], "finished") > 0 /\ SameTxn(T, j, i) } }
+C15(T) ==
+  IF ~Has(T, "C15") THEN {} ELSE
+  UNION { C15Event(T, i) : i \in Calls(T) } \cup C15OrderS(T) \cup C15OrderD(T)
+
+\* ===== C12: cancellation takes effect immediately and is signalled correctly =====
+IdBytesP(w, v) == [i \in 1..w |-> (v \div (256 ^ (w - i))) % 256]
+NextIdx(S) == CHOOSE i \in S : \A j \in S : i <= j
+C12(T) ==
+  IF ~Has(T, "C12") THEN {} ELSE
+  LET cancels == { i \in Calls(T) : T.ev[i].call = "cancel" /\ T.ev[i].exc = "none" }
+      B(c, i) == {V("C12", c, i, Kf(T), "", "")} IN
+  \* (a) the return value
+  UNION { IF (T.ev[i].ret = "true") # (T.ev[i].pre.state = "BUSY" /\ T.ev[i].pre.tidSet /\ T.ev[i].arg.right)
+          THEN B("cancel-request-return-value", i) ELSE {} : i \in cancels }
+  \* (b) sender: the next PDU is the EOF (cancel) for the bytes sent, no new file data afterwards
+  \cup UNION { LET e == T.ev[i]
+                   sent == e.pre.progress
+                   f == CurFile(T, i)
+                   later == SelectSeq(SrcOut(T), LAMBDA x : x.i >= i /\ x.p.h.qv = e.pre.tseq) IN
+               (IF later # <<>> /\ ~(/\ later[1].p.t = "EOF" /\ later[1].p.cond = "CANCEL_REQUEST_RECEIVED" /\ later[1].p.size = sent
+                                      /\ ((T.cfg.chk = "MODULAR" /\ sent # Len(f))
+                                          \/ later[1].p.chk = FileChecksum(IF T.ev[i].pre.fileSize < 0 \/ PutBefore(T, i).mdOnly THEN "NULL" ELSE T.cfg.chk, f, sent)))
+                THEN B("next-pdu-after-cancel-is-not-the-eof-cancel-for-the-bytes-sent", i) ELSE {})
+               \cup (IF later = <<>> /\ e.pre.step \notin {"NOTICE_OF_COMPLETION"} /\ \E j \in OfSide(T, "S") : j > i /\ T.ev[j].call = "fsm" /\ T.ev[j].exc = "none"
+                     THEN B("no-eof-cancel-emitted-after-cancel", i) ELSE {})
+               \cup (IF \E k \in DOMAIN later : later[k].p.t = "FD" /\ later[k].p.off + Len(later[k].p.data) > sent
+                     THEN B("new-file-data-emitted-after-cancel", i) ELSE {})
+               : i \in { i \in cancels : T.ev[i].side = "S" /\ T.ev[i].ret = "true"
+                                       \* the first cancellation of the transaction (a later one abandons it, CFDP 4.11.2.2.3)
+                                       /\ ~\E x \in ToSet(SrcOut(T)) : x.i < i /\ x.p.h.qv = T.ev[i].pre.tseq /\ x.p.t = "EOF" /\ x.p.cond # "NO_ERROR" } }
+  \* (c) receiver, local cancel: Transaction-Finished with Cancel Request Received at the next call; Finished PDU with the
+  \*     local entity as fault location when one is due
+  \cup UNION { LET e == T.ev[i]
+                   nxt == { j \in OfSide(T, "D") : j > i /\ T.ev[j].call = "fsm" /\ T.ev[j].exc = "none" } IN
+               IF nxt = {} THEN {} ELSE
+               LET n == T.ev[NextIdx(nxt)]
+                   fins == SelectSeq(n.ind, LAMBDA x : x.k = "finished")
+                   pdus == SelectSeq(n.out, LAMBDA x : x.t = "FIN") IN
+               (IF T.cfg.indD.finished /\ ~(fins # <<>> /\ fins[1].cond = "CANCEL_REQUEST_RECEIVED")
+                THEN B("no-transaction-finished-cancel-indication-at-the-next-call", i) ELSE {})
+               \cup (IF pdus # <<>> /\ ~(pdus[1].cond = "CANCEL_REQUEST_RECEIVED" /\ pdus[1].floc.set /\ pdus[1].floc.v = IdBytesP(T.cfg.dIdW, T.cfg.dId))
+                     THEN B("finished-pdu-after-local-cancel-wrong-condition-or-fault-location", i) ELSE {})
+               : i \in { i \in cancels : T.ev[i].side = "D" /\ T.ev[i].ret = "true" } }
+  \* (d) EOF (cancel) received: finishes with the EOF's condition, the sender as fault location; file deleted iff configured
+  \cup UNION { LET e == T.ev[i]
+                   nxt == { j \in OfSide(T, "D") : j >= i /\ T.ev[j].exc = "none" /\ T.ev[j].post.tseq \in {e.post.tseq, -1}
+                                                  /\ \E k \in DOMAIN T.ev[j].ind : T.ev[j].ind[k].k = "finished" } IN
+               IF nxt = {} \/ ~T.cfg.indD.finished THEN {} ELSE
+               LET j == NextIdx(nxt)
+                   n == T.ev[j]
+                   fin == SelectSeq(n.ind, LAMBDA x : x.k = "finished")[1]
+                   pdus == SelectSeq(n.out, LAMBDA x : x.t = "FIN")
+                   path == DstPathT(T)
+                   had == \E k \in DOMAIN FsBefore(T, j) : FsBefore(T, j)[k].p = path /\ ~FsBefore(T, j)[k].dir
+                   has == \E k \in DOMAIN n.fs : n.fs[k].p = path /\ ~n.fs[k].dir IN
+               (IF fin.cond # e.arg.cond THEN B("eof-cancel-condition-not-reported", j) ELSE {})
+               \cup (IF pdus # <<>> /\ ~(pdus[1].cond = e.arg.cond /\ pdus[1].floc.set /\ pdus[1].floc.v = IdBytesP(T.cfg.sIdW, T.cfg.sId))
+                     THEN B("finished-pdu-after-eof-cancel-wrong-condition-or-fault-location", j) ELSE {})
+               \cup (IF had /\ T.cfg.disp /\ fin.deliv = "DATA_INCOMPLETE" /\ has THEN B("incomplete-file-not-deleted-although-disposition-configured", j) ELSE {})
+               \cup (IF had /\ ~(T.cfg.disp /\ fin.deliv = "DATA_INCOMPLETE") /\ ~has THEN B("file-deleted-although-not-configured-or-complete", j) ELSE {})
+               : i \in { i \in OfSide(T, "D") : /\ T.ev[i].call = "fsm" /\ T.ev[i].arg.t = "EOF" /\ T.ev[i].arg.cond # "NO_ERROR"
+                                                /\ T.ev[i].exc = "none" /\ T.ev[i].pre.step \in {"RECEIVING_FILE_DATA", "RECV_FILE_DATA_WITH_CHECK_LIMIT_HANDLING"}
+                                                /\ ~\E c \in cancels : T.ev[c].side = "D" /\ T.ev[c].ret = "true" /\ T.ev[c].pre.tseq = T.ev[i].pre.tseq } }
+
+Violations(T) == C01(T) \cup C02(T) \cup C03(T) \cup C10(T) \cup C07(T) \cup C08(T) \cup C19(T) \cup C05(T) \cup C06(T) \cup C15(T) \cup C12(T)
 ====
